@@ -206,35 +206,33 @@ Fixpoint occupies (t : ty) : bool :=
     (fix go (ms : list (minfo * ty)) : bool :=
        match ms with [] => false | (m, t') :: r => m_opt m || occupies t' || go r end) ms
   end.
-(* the length-versus-bytes guard of deserialize_sequence_elements exempts member-less structures
-   only: a collection of elements that can be empty but are not member-less may be rejected;
-   an XCDR1 optional member whose value is empty is read back as absent (length 0) *)
-Definition zero_size_trap (t : ty) : bool :=
+(* XCDR1: a PRESENT optional member whose value is empty has parameter length 0, which is also
+   how an absent member is written: it is read back as absent (inherent to the short encoding) *)
+Definition opt_empty_trap (t : ty) : bool :=
   match t with
-  | TSeq e | TArr _ e => negb (occupies e || is_empty_struct e)
   | TStruct _ ms => existsb (fun mx : minfo * ty => m_opt (fst mx) && negb (occupies (snd mx))) ms
   | _ => false
   end.
-(* XCDR1 parameter header: `member_id as u16 + (m_flag << 14)` overflows (debug panic) *)
-Definition pid_overflow (t : ty) : bool :=
+(* XCDR1: an optional member id >= 2^14 needs the long parameter header (rule (25)), which the
+   code does not implement: the serializer returns InvalidId -- such a type is not supported in XCDR1 *)
+Definition pl_long (t : ty) : bool :=
   match t with
-  | TStruct _ ms =>
-    existsb (fun mx : minfo * ty => m_opt (fst mx) && m_mu (fst mx) && (49152 <=? wrap_u16 (m_id (fst mx)))) ms
+  | TStruct _ ms => existsb (fun mx : minfo * ty => m_opt (fst mx) && (16384 <=? m_id (fst mx))) ms
   | _ => false
   end.
+Definition sup (v : ver) (t : ty) : bool :=
+  match v with V1 => negb (ty_any pl_long t) | V2 => true end.
 
 (* known-finding classes of a round-trip case (0 = none).  Classes 1 (char8 >= 0x80 written as
-   UTF-8), 2 (XCDR1 float128 reader alignment) and 3 (XCDR1 optional member rewound) were repaired
-   in /repo (c6ffb24, 0b5427b, addc370) and no longer exist; the numbers are kept stable:
+   UTF-8), 2 (XCDR1 float128 reader alignment), 3 (XCDR1 optional member rewound), 6 (XCDR1
+   parameter id overflow) and the collection part of 5 (zero-size elements rejected by the length
+   guard) were repaired in /repo (c6ffb24, 0b5427b, addc370, 2cf9289, 8422ab4); the numbers are
+   kept stable:
    4  mutable types / unions (stage 3): several defects, see the S3 witnesses
-   5  zero-size values: collection elements that occupy no bytes without being member-less
-      structures hit the length-versus-bytes guard; a present XCDR1 optional member with an empty
-      value is read back as absent
-   6  XCDR1: must_understand optional member with (id mod 2^16) >= 0xC000: u16 overflow panic *)
+   5  XCDR1: a present optional member with an empty value is read back as absent *)
 Definition known_class (v : ver) (t : ty) (x : val) : N :=
   if negb (stage2 t) then 4%N
-  else if ty_any zero_size_trap t then 5%N
-  else if (match v with V1 => true | V2 => false end) && ty_any pid_overflow t then 6%N
+  else if (match v with V1 => true | V2 => false end) && ty_any opt_empty_trap t then 5%N
   else 0%N.
 
 (* pad_entire_serialization as seen on the produced bytes: total length a multiple of 4,
@@ -245,11 +243,11 @@ Definition padding_ok (bs : list Z) : bool :=
    (0 <=? n) && (n <=? 3) && (4 + n <=? blen bs) &&
    forallb (Z.eqb 0) (skipn (length bs - Z.to_nat n) bs)).
 
-(* S1+S2 in one predicate: no union, no mutable type, no zero-size trap; in XCDR1 no parameter
-   id overflow *)
+(* S1+S2 in one predicate: no union, no mutable type; in XCDR1 no optional member that can be
+   empty and no optional member id beyond the short parameter header *)
 Definition tbad (V : ver) (t : ty) : bool :=
-  is_union t || is_mutable t || zero_size_trap t ||
-  (match V with V1 => pid_overflow t | V2 => false end).
+  is_union t || is_mutable t ||
+  (match V with V1 => opt_empty_trap t || pl_long t | V2 => false end).
 Definition tgood (V : ver) (t : ty) : bool := wf_ty t && negb (ty_any (tbad V) t).
 
 (* size limit of the statement: the DHEADER of an appendable object and every length field is a
